@@ -81,7 +81,6 @@ type gctx struct {
 	loop     int
 	yieldInt bool // the value of a yield expression is an integer (driver-supplied)
 	inner    int  // nesting of inner generators
-	badAwait bool // async case that may await a promise whose constructor getter throws (open finding C09-N8: kept rare)
 }
 
 type gen struct {
@@ -108,7 +107,7 @@ func (g *gen) intExp(c gctx, d int) *Exp {
 		}
 		return &Exp{K: "var", X: r.Intn(3)}
 	}
-	if c.async && c.inner == 0 && c.badAwait && r.Chance(8) {
+	if c.async && c.inner == 0 && r.Chance(3) {
 		g.tag("await-bad-promise")
 		return &Exp{K: "awaitbad", Z: int64(40 + r.Intn(9))}
 	}
@@ -340,7 +339,7 @@ func genCase(r *vh.Rng) (Case, []string) {
 	c.Cap = r.Chance(60)
 	if r.Chance(12) {
 		c.Kind = "async"
-		ctx := gctx{top: true, async: true, yieldInt: true, badAwait: r.Chance(6)}
+		ctx := gctx{top: true, async: true, yieldInt: true}
 		c.Body = g.block(ctx, 3, 2+r.Intn(3))
 		g.budget = 3 + r.Intn(5)
 		c.Body2 = g.block(ctx, 2, 1+r.Intn(3))
